@@ -68,7 +68,15 @@ func corruptFrame(rc *RunCtx, valid []byte, streamEntry bool) ([]byte, string) {
 		proto, _ := rc.Sample["protocol"].(string)
 		return giantRequest(proto, n), fmt.Sprintf("well-framed request for an unknown method with a %d-byte name", n)
 	}
-	switch tp.Intn("corrupt", 9) {
+	switch tp.Intn("corrupt", 10) {
+	case 9:
+		// a size prefix no frame can have, followed by bytes that read as a plausible size: a receiver that
+		// "skips" the impossible frame on a stream starts waiting for a frame that does not exist
+		rc.Fault("impossible-size-then-plausible-size")
+		out := make([]byte, 8+tp.Intn("corrupt", 9))
+		binary.BigEndian.PutUint32(out, []uint32{0x7fffffff, 0xffffffff, 0x80000000, 0xfffffff0}[tp.Intn("corrupt", 4)])
+		binary.BigEndian.PutUint32(out[4:], []uint32{0x00fa0000, 0x00010000, 0x00000400, 0x00000020}[tp.Intn("corrupt", 4)])
+		return out, fmt.Sprintf("size prefix %#x followed by %#x and %d more bytes", binary.BigEndian.Uint32(out), binary.BigEndian.Uint32(out[4:]), len(out)-8)
 	case 8:
 		// the smallest well-formed unit: a frame of size zero (what a oneway
 		// gets over HTTP), alone or followed by stray bytes
@@ -263,7 +271,7 @@ func corruptHarness(rc *RunCtx) {
 		case "adapter-client":
 			bad, w := corruptFrame(rc, repFrame, true)
 			what = w
-			hostilePrefix = len(bad) >= 12 && binary.BigEndian.Uint32(bad) >= 0x7fffffff
+			hostilePrefix = len(bad) >= 8 && binary.BigEndian.Uint32(bad) >= 0x7fffffff
 			ch := env.tr.Closed()
 			env.streams[0].PeerWrite(bad)
 			if tp.Intn("cfg", 2) == 0 {
